@@ -1,6 +1,7 @@
 package sys
 
 import (
+	"strings"
 	"fmt"
 
 	"verifharness/common"
@@ -331,6 +332,29 @@ func GenScenario(rng *common.Rng) *Scenario {
 		if sc.Start > 3 {
 			sc.Final = sc.Start - uint64(rng.Range(1, 3)) // below the start block
 		}
+	}
+	return sc
+}
+
+// Encode: the scenario as one word (world encoding has no spaces): world|output|start|stop|head|final|seg
+func (sc *Scenario) Encode() string {
+	return fmt.Sprintf("%s|%s|%d|%d|%d|%d|%d", sc.W.Encode(), sc.Output, sc.Start, sc.Stop, sc.Head, sc.Final, sc.Seg)
+}
+
+func DecodeScenario(s string) *Scenario {
+	f := strings.Split(s, "|")
+	if len(f) != 7 {
+		panic("bad scenario encoding: " + s)
+	}
+	return &Scenario{W: Decode(f[0]), Output: f[1], Start: common.Atou(f[2]), Stop: common.Atou(f[3]), Head: common.Atou(f[4]), Final: common.Atou(f[5]), Seg: common.Atou(f[6])}
+}
+
+// GenScenarioOr draws a scenario (always, so that the PRNG stream does not depend on `fixed`) and returns the fixed
+// one instead when given: corpus entries keep their world and request when the generators change.
+func GenScenarioOr(rng *common.Rng, fixed string) *Scenario {
+	sc := GenScenario(rng)
+	if fixed != "" {
+		return DecodeScenario(fixed)
 	}
 	return sc
 }
